@@ -34,7 +34,8 @@ TECHNIQUE = "history-level class invariant + lock-step FIFO/registration referen
 RULE = (
     "case = history of 40-400 get_cert/add_cert calls on a fresh CertStore (one CA per worker) over a universe of ~170 "
     "names (hosts in 4 zones, nested sub-domains, IPv4/IPv6 addresses, wildcard-shaped names, a 70-character name, an IDN "
-    "given as legacy str SAN), requests = (CN or None, 0-3 SANs passed as list / tuple / x509.GeneralNames / generator / map object / "
+    "given as legacy str SAN; plus RFC822Name / URI / DirectoryName / RegisteredID / OtherName SANs whose text contains a pool "
+    "host name -- these match custom certificates only by their exact string, never by wildcard forms), requests = (CN or None, 0-3 SANs passed as list / tuple / x509.GeneralNames / generator / map object / "
     "list iterator -- the cache and the oracle are keyed by the logical request, not the container), biased to re-request the newest, the oldest-still-cached "
     "and the just-evicted key; custom certificates registered under exact / wildcard / '*' specs and via their own CN/SANs "
     "at random points; distinct = (eviction bucket, hit bucket, kinds of custom registration matched, IP/wildcard/legacy/"
@@ -81,7 +82,57 @@ UNIVERSE = universe()
 
 def to_general_name(n):
     kind, v = n
-    return x509.DNSName(v) if kind == "dns" else x509.IPAddress(ipaddress.ip_address(v))
+    if kind == "dns":
+        return x509.DNSName(v)
+    if kind == "ip":
+        return x509.IPAddress(ipaddress.ip_address(v))
+    if kind == "email":
+        return x509.RFC822Name(v)
+    if kind == "uri":
+        return x509.UniformResourceIdentifier(v)
+    if kind == "dirname":  # v = RFC 4514 string
+        return x509.DirectoryName(x509.Name.from_rfc4514_string(v))
+    if kind == "rid":  # v = dotted OID
+        return x509.RegisteredID(x509.ObjectIdentifier(v))
+    if kind == "other":  # v = "oid:utf8-text", carried as a DER UTF8String
+        oid, _, text = v.partition(":")
+        raw = text.encode()
+        return x509.OtherName(x509.ObjectIdentifier(oid), b"\x0c" + bytes([len(raw)]) + raw)
+    raise ValueError(kind)
+
+
+def general_name_tuple(g):
+    """Independent canonical (kind, text) of a parsed GeneralName -- inverse of to_general_name."""
+    if isinstance(g, x509.DNSName):
+        return ("dns", g.value)
+    if isinstance(g, x509.IPAddress):
+        return ("ip", str(g.value))
+    if isinstance(g, x509.RFC822Name):
+        return ("email", g.value)
+    if isinstance(g, x509.UniformResourceIdentifier):
+        return ("uri", g.value)
+    if isinstance(g, x509.DirectoryName):
+        return ("dirname", g.value.rfc4514_string())
+    if isinstance(g, x509.RegisteredID):
+        return ("rid", g.value.dotted_string)
+    if isinstance(g, x509.OtherName):
+        return ("other", g.type_id.dotted_string + ":" + g.value[2:].decode("utf8", "replace"))
+    return ("unknown", repr(g))
+
+
+def exotic_san(r, pool):
+    """A non-DNS, non-IP SAN whose text contains / ends in a host name of the pool."""
+    d = r.choice([v for k, v in pool if k == "dns" and not v.startswith("*")] or ["h1.example.com"])
+    kind = r.choice(["email", "email", "uri", "uri", "dirname", "rid", "other"])
+    if kind == "email":
+        return ("email", r.choice([f"hostmaster@{d}", f"hostmaster@mail.{d}"]))
+    if kind == "uri":
+        return ("uri", r.choice([f"https://{d}", f"https://login.{d}", f"https://{d}/path", f"spiffe://{d}"]))
+    if kind == "dirname":
+        return ("dirname", f"CN={d[-60:]}")  # a CN attribute holds at most 64 characters
+    if kind == "rid":
+        return ("rid", r.choice(["1.2.3.4", "1.3.6.1.4.1.311.20.2.3"]))
+    return ("other", "1.3.6.1.4.1.311.20.2.3:" + f"user@{d}"[:100])
 
 
 def read_cert(entry):
@@ -93,12 +144,7 @@ def read_cert(entry):
     try:
         ext = c.extensions.get_extension_for_class(x509.SubjectAlternativeName).value
         for g in ext:
-            if isinstance(g, x509.DNSName):
-                sans.append(("dns", g.value))
-            elif isinstance(g, x509.IPAddress):
-                sans.append(("ip", str(g.value)))
-            else:
-                sans.append(("other", repr(g)))
+            sans.append(general_name_tuple(g))
     except x509.ExtensionNotFound:
         pass
     return cn, sans
@@ -177,7 +223,10 @@ def one_history(ctx, storedir):
         if k is not None:
             return k[0], list(k[1]), False
         if focused and x < 0.9:
-            return r.choice(cn_pool), [r.choice(pool) for _ in range(r.choice([0, 0, 1, 1, 2]))], False
+            fs = [r.choice(pool) for _ in range(r.choice([0, 0, 1, 1, 2]))]
+            if r.random() < 0.35:
+                fs.insert(r.randrange(len(fs) + 1), exotic_san(r, pool))
+            return r.choice(cn_pool), fs, False
         nsan = r.choice([0, 1, 1, 1, 2, 3])
         sans = [r.choice(pool) for _ in range(nsan)]
         cn_src = r.choice(pool)
@@ -190,7 +239,9 @@ def one_history(ctx, storedir):
             cn = cn_src[1]
         if cn is None and not sans:
             sans = [r.choice(pool)]
-        legacy = r.random() < 0.1
+        if r.random() < 0.12:
+            sans.insert(r.randrange(len(sans) + 1), exotic_san(r, pool))
+        legacy = r.random() < 0.1 and all(k in ("dns", "ip") for k, _ in sans)
         return cn, sans, legacy
 
     for step in range(n_calls):
@@ -203,6 +254,10 @@ def one_history(ctx, storedir):
             csans = [r.choice(pool) for _ in range(r.choice([0, 0, 1, 2]))]
             if ccn is None and not csans:
                 csans = [r.choice(pool)]
+            if r.random() < 0.2:
+                ex = exotic_san(r, pool)
+                if ex[0] in ("email", "uri"):  # registered by the store under exactly this string
+                    csans.append(ex)
             specs = []
             for _ in range(r.choice([0, 1, 1, 2])):
                 z = r.random()
@@ -212,7 +267,7 @@ def one_history(ctx, storedir):
                     custom_kinds.add("spec-exact")
                 elif z < 0.93 or star_registered or step < n_calls * 0.6:
                     parts = base.split(".")
-                    if len(parts) > 2 and not base.startswith("*") and (len(parts) > 3 or r.random() < 0.3):
+                    if len(parts) > 2 and not base.startswith("*") and (focused or len(parts) > 3 or r.random() < 0.3):
                         specs.append("*." + ".".join(parts[1:]))
                         custom_kinds.add("spec-wildcard")
                     else:
@@ -257,6 +312,10 @@ def one_history(ctx, storedir):
                     arg = iter(gns)
             if any(k == "ip" for k, _ in sans):
                 feats.add("ip-san")
+            for k, _ in sans:
+                if k not in ("dns", "ip"):
+                    feats.add("non-host-san")
+                    ctx.seen("san_types", k)
             if any(v.startswith("*") for _k, v in sans):
                 feats.add("wildcard-shaped-request")
             if cn is None:
